@@ -309,7 +309,20 @@ def condsFields : List Cond → List Str
   | c :: cs => condFields c ++ condsFields cs
 end
 
-def Call.fields (c : Call) : List Str := condsFields (c.args.filterMap id) ++ c.kwargs.map (·.1)
+/-- `_order_by` / `_as_scalars` (the names are read from `_execute` by the translator): the only
+keyword arguments that are not filters -/
+def isOptionKey (k : Str) : Bool := k = Gen.C15.orderKey || k = Gen.C15.scalarsKey
+
+/-- the keyword arguments left after `kwargs.pop('_order_by', …)`, `kwargs.pop('_as_scalars', …)` -/
+def filterKwargs (kw : List (Str × Arg)) : List (Str × Arg) := kw.filter fun ka => !isOptionKey ka.1
+
+/-- `kwargs[k]` if present (keyword names are distinct) -/
+def lookupKw (k : Str) : List (Str × Arg) → Option Arg
+  | [] => none
+  | (k', a) :: rest => if k' = k then some a else lookupKw k rest
+
+def Call.fields (c : Call) : List Str :=
+  condsFields (c.args.filterMap id) ++ (filterKwargs c.kwargs).map (·.1)
 
 /-- the character by which a placeholder is recognised in the text: `?`, or the `%` of `%s` -/
 def marker (pct : Bool) : Char := if pct then '%' else '?'
@@ -348,8 +361,7 @@ def renders (pct : Bool) : List Where → Except Fail (List Str)
     pure (t :: ts)
 end
 
-/-- the fixed parts of a `SqlMethod`: `sql_select_from`, `group_by`, and the ORDER BY text in
-effect (`_order_by` or the default) -/
+/-- the fixed parts of a `SqlMethod`: `sql_select_from`, `group_by`, `default_order_by` -/
 structure Stmt where
   selectFrom : Str
   groupBy : Option Str
@@ -391,19 +403,40 @@ structure Prepared where
   deriving Repr, Inhabited
 
 /-- the filter objects of a call: positional arguments that are not `None`, then the keyword
-arguments sorted by name -/
+arguments — all but the two options — sorted by name -/
 def filters (call : Call) : Except Fail (List NCond) := do
   let xs ← mkConds (call.args.filterMap id)
-  let ys ← mkKw (sortKw call.kwargs)
+  let ys ← mkKw (sortKw (filterKwargs call.kwargs))
   pure (xs ++ ys)
+
+/-- `order_by_clause = kwargs.pop('_order_by', self.default_order_by)`, used as
+`" ORDER BY " + order_by_clause` unless it is `None` (so `_order_by=None` cancels the default;
+anything but a `str` is a `TypeError` of the concatenation) -/
+def orderClause (st : Stmt) (kw : List (Str × Arg)) : Except Fail (Option Str) :=
+  match lookupKw Gen.C15.orderKey kw with
+  | none => .ok st.orderBy
+  | some (.scalar .null) => .ok none
+  | some (.scalar (.text s)) => .ok (some s)
+  | some _ => .error (.py .typeError)
 
 /-- `SqlMethod._execute` up to and including the binding of the parameters -/
 def prepare (pct : Bool) (st : Stmt) (call : Call) : Except Fail Prepared := do
   let fs ← filters call
   let r := toWheres fs
-  let text ← sqlText pct st r.1
+  let ord ← orderClause st call.kwargs
+  let text ← sqlText pct { st with orderBy := ord } r.1
   let params ← bindAll r.2
   pure { conj := r.1, text := text, params := params }
+
+/-- the caller's own texts carry no placeholder mark (checked by the driver on every request;
+hypothesis of `C15.placeholders`) -/
+def cleanStr (pct : Bool) (s : Str) : Bool := s.count (marker pct) == 0
+
+def clean (pct : Bool) (st : Stmt) (call : Call) : Bool :=
+  cleanStr pct st.selectFrom &&
+  (match st.groupBy with | some g => cleanStr pct g | none => true) &&
+  call.fields.all (cleanStr pct) &&
+  (match orderClause st call.kwargs with | .ok (some o) => cleanStr pct o | _ => true)
 
 /-! ## three-valued meaning -/
 
@@ -642,7 +675,11 @@ def eraseArgs : List (Option Cond) → List (Option Cond)
   | none :: as => none :: eraseArgs as
   | some c :: as => some c.erase :: eraseArgs as
 
-def Call.erase (c : Call) : Call := { args := eraseArgs c.args, kwargs := eraseKw c.kwargs }
+/-- the values of keyword filters are forgotten, the two options are kept -/
+def eraseTopKw (kw : List (Str × Arg)) : List (Str × Arg) :=
+  kw.map fun ka => if isOptionKey ka.1 then ka else (ka.1, ka.2.erase)
+
+def Call.erase (c : Call) : Call := { args := eraseArgs c.args, kwargs := eraseTopKw c.kwargs }
 
 /-! ## rows returned -/
 
@@ -715,11 +752,13 @@ def finish (m : Method) (rows : List Cells) : Except Fail (Option (List Cells)) 
   | .oneOrEmpty, _ => .error (.py .valueError)
 
 /-- the whole call: prepare, let SQLite select and order the rows of the table, apply the method.
-`order`: the ORDER BY in effect (`_order_by` or the default), as a structure and (rendered by
-`orderText`) as the text handed to `SqlMethod`. -/
-def run (pct : Bool) (selectFrom : Str) (groupBy : Option Str) (order : Option OrderSpec) (call : Call)
+`st.orderBy` is the default ORDER BY text, `call.kwargs` may carry `_order_by`; `order` is the
+ORDER BY in effect as a structure: the call is answered only if its rendering (`orderText`) is the
+text in effect (`orderClause`), otherwise the request itself is inconsistent (`Fail.sql`). -/
+def run (pct : Bool) (st : Stmt) (order : Option OrderSpec) (call : Call)
     (m : Method) (table : List Cells) : Except Fail (Option (List Cells)) := do
-  let p ← prepare pct { selectFrom := selectFrom, groupBy := groupBy, orderBy := order.map orderText } call
+  let p ← prepare pct st call
+  if orderClause st call.kwargs ≠ .ok (order.map orderText) then .error .sql else
   match selectRows (wheresFields p.conj) p.conj p.params table with
   | none => .error .sql
   | some sel =>
